@@ -21,10 +21,10 @@ def _doc_batch(args):
            'internal': [], 'printed': 0}
     for k in range(n):
         try:
-            w = E.doc_case(_W['drv'], rnd, cls=rnd.choice(E.HARD if k % 8 == 5 else big if k % 4 else E.ALL), depth=rnd.choice(opts.get('depths', [0, 1, 2])),
+            w = E.doc_case(_W['drv'], rnd, cls=rnd.choice(E.HARD if rnd.random() < opts.get('hard', 0.125) else big if k % 4 else E.ALL), depth=rnd.choice(opts.get('depths', [0, 1, 2])),
                            mixed_chk=rnd.random() < opts.get('mixed', 0.25), copy=rnd.random() < opts.get('copy', 0.3),
                            dots=opts.get('dots', True), roots=rnd.choice(opts.get('roots', [1])),
-                           reuse=rnd.random() < opts.get('reuse', 0.35), sandwich=rnd.random() < opts.get('sandwich', 0.1))
+                           reuse=rnd.random() < opts.get('reuse', 0.35), sandwich=rnd.random() < opts.get('sandwich', 0.1), scratch=rnd.random() < opts.get('scratch', 0.1))
         except Exception:
             import traceback
             out['dis'].append({'harness_error': traceback.format_exc()[-1200:]})
